@@ -171,6 +171,23 @@ func (x *Exec) applyContract(st *State, i *ssa.Call, fi *FuncInfo, fs *FuncSpec,
 		for _, f := range facts {
 			st.assume(f)
 		}
+		// dyntype r *T: the interface result is known to hold a pointer to a T
+		for _, c := range fs.Clauses {
+			if c.Kind != "dyntype" {
+				continue
+			}
+			f := strings.Fields(c.Text)
+			if len(f) == 2 && j < len(fs.Results) && fs.Results[j] == f[0] && callee.Pkg != nil {
+				if tm, ok := callee.Pkg.Members[strings.TrimPrefix(f[1], "*")].(*ssa.Type); ok {
+					if named, ok := tm.Type().(*types.Named); ok {
+						ref := FreshVar(callee.Name()+"!obj", RegSort)
+						st.assume(BVCmp("bvult", ref, st.alloc))
+						st.assume(Not(Eq(ref, BVInt(0, 32))))
+						v = VIfaceObj{Obj: PObj{ref, &STy{K: TPtr, Named: named}}, Ty: tyFromGo(res.At(j).Type())}
+					}
+				}
+			}
+		}
 		rs = append(rs, v)
 	}
 	post := x.funcEnvExt(fi, fs, "post", st, old, args, rs)
